@@ -123,7 +123,7 @@ def fam_roundtrip(ctx, rng, special=None):
         # arcs whose start / end angle is exactly 0.0 (the end of the documented range 0 <= a <= 2 pi)
         cls, which = special
         r_ = fp(rng.uniform(0.5, 20)); other = rng.uniform(0.5, 5.5)
-        a1, a2 = (other, 0.0) if which == 'a2' else (0.0, other)
+        a1, a2 = {'a2': (other, 0.0), 'a1': (0.0, other), 'a2=2pi': (other, 2 * math.pi), 'a1=2pi': (2 * math.pi, other)}[which]
         o = Arc2D(Point2D(*full(G.rpt2(rng))), r_, a1, a2) if cls == 'Arc2D' else Arc3D(make_full(rng, 'Plane'), r_, a1, a2)
     d = o.to_dict()
     opt = tuple(sorted(k for k in d if k in ('plane', 'holes', 'interpolated', 'colors', 'edge_information', 'x')))
@@ -162,6 +162,10 @@ def fam_equality(ctx, rng):
     desc = {'class': cls, 'dict': o.to_dict()}
     ctx.count('equality.' + cls, key=cls)
     dup = o.duplicate()
+    try:
+        hash(o); hash(dup); o == dup
+    except Exception as e:
+        ctx.violation('eq:%s:hash_raises' % cls, 'hash() / == of a valid object raised %r' % (e,), desc); return
     if not (o == o):
         ctx.violation('eq:%s:reflexive' % cls, 'x != x', desc); return
     if not (dup == o) or not (o == dup):
@@ -307,7 +311,20 @@ def explore(ctx):
         fam_integer_coordinates(ctx, ctx.rng, cls)       # the hash-collision probe, every class on every run
     for cls in ZERO_CLASSES:
         fam_signed_zero(ctx, ctx.rng, cls)               # the signed-zero probe, every class on every run
-    for sp in (('Arc2D', 'a1'), ('Arc2D', 'a2'), ('Arc3D', 'a1'), ('Arc3D', 'a2')):
+    # factory-built polyfaces (their connectivity is handed over as tuples of lists / lists of tuples): hashable, == duplicate, == JSON round trip
+    for mk, nm in ((lambda: Polyface3D.from_box(2.0, 3.0, 4.0), 'from_box'),
+                   (lambda: Polyface3D.from_offset_face(Face3D([Point3D(0, 0, 0), Point3D(4, 0, 0), Point3D(4, 3, 0), Point3D(0, 3, 0)]), 2.0), 'from_offset_face'),
+                   (lambda: Polyface3D([Point3D(0, 0, 0), Point3D(4, 0, 0), Point3D(4, 3, 0)], ([[0, 1, 2]],)), 'tuple_of_lists')):
+        try:
+            pf = mk()
+            ctx.count('equality.polyface_factory', key=nm, sample={'factory': nm})
+            back = Polyface3D.from_dict(json.loads(json.dumps(pf.to_dict())))
+            if hash(pf) != hash(pf.duplicate()) or not (pf == pf.duplicate()) or not (back == pf) or hash(back) != hash(pf):
+                ctx.violation('eq:Polyface3D:%s' % nm, 'a %s polyface is not equal (or hashes differently) to its duplicate / JSON round trip' % nm, {'factory': nm})
+        except Exception as e:
+            ctx.violation('eq:Polyface3D:%s:raises' % nm, 'hash / == / round trip of a %s polyface raised %r' % (nm, e), {'factory': nm})
+    for sp in (('Arc2D', 'a1'), ('Arc2D', 'a2'), ('Arc3D', 'a1'), ('Arc3D', 'a2'), ('Arc2D', 'a2=2pi'), ('Arc3D', 'a2=2pi'), ('Arc2D', 'a1=2pi'),
+               ('Arc3D', 'a1=2pi')):
         fam_roundtrip(ctx, ctx.rng, sp)                  # arcs starting / ending exactly at angle 0, every run
     for fn, n in FAMILIES:
         for _ in range(ctx.n(n, n * 10)):
